@@ -225,6 +225,87 @@ func (h *c07h) finish(out string, jobs []*c07job) error {
 		}
 	}
 	for _, j := range jobs {
+		for _, c := range j.echos {
+			next++
+			c.ID = next
+			q := c.q
+			cls := q.class(c.impl, c.fail)
+			repCoq := func(x string) string {
+				return map[string]string{"raw": "ARaw", "wrap": "AWrap", "box": "(ABox 0)", "fail": "AFail"}[x]
+			}
+			shape := map[string]string{"lit": "ALit", "var": "ASlot", "field": "ASlot", "elem": "ASlot", "mapelem": "ASlot", "deref": "ASlot", "call": "ACall", "methcall": "ACall",
+				"hostcall": "AHostCall", "conv": "AConv", "nested2": "(ANested 0)", "nested3": "(ANested 1)"}[q.Shape]
+			pt := map[string]string{"concrete": "PConcrete", "iface": "PIface", "any": "PAny", "hostiface": "PHostIface"}[q.P]
+			sink := "KEcho"
+			if q.Sink == "EchoStr" {
+				sink = "KEchoStr"
+			}
+			obs := repCoq(cls)
+			region := c.region
+			if obs == "" {
+				obs, region = "AFail", "" // an echo that is none of the known classes
+				if cls == "fail" {
+					obs = "AFail"
+				}
+			}
+			byKind["echo"] = append(byKind["echo"], fmt.Sprintf("(%d%%N, %s, %s, %s, %d, %s, %s, %s)", c.ID, pt, coqBool(q.hasM()), shape, q.Depth, sink, obs, repCoq(q.gEcho())))
+			sm.ImplComparisons++
+			sm.RefComparisons++
+			sm.count("case:echo")
+			if c.region != "" {
+				sm.count("region:" + c.region)
+			}
+			info := map[string]any{"kind": "echo", "region": c.region}
+			for _, k := range []string{"stream", "param-type", "value", "shape", "forwarded-through", "sink"} {
+				info[k] = c.input[k]
+			}
+			sm.CaseIndex[fmt.Sprint(c.ID)] = info
+			if cls != q.gEcho() {
+				in := map[string]any{"script": c.input["script"]}
+				for k, v := range info {
+					in[k] = v
+				}
+				if repCoq(cls) == "" {
+					region = ""
+				}
+				sm.RefMismatches = append(sm.RefMismatches, refMismatch{ID: c.ID, Region: region, Input: in, Impl: map[string]any{"echo": c.impl, "failed": c.fail, "class": cls},
+					Ref: map[string]any{"class": q.gEcho(), "plainest-shape-echo": c.ref}, Note: "the host echoes %T:%v of what it receives"})
+			}
+		}
+		for _, c := range j.stmts {
+			next++
+			c.ID = next
+			g := c.g
+			form := map[string]string{"go": "FGo", "defer": "FDefer"}[g.Form]
+			callee := map[string]string{"host-direct": "CHostDirect", "host-direct-any": "CHostDirect", "host-var": "CHostVar", "host-var-typed": "CHostVarTyped", "host-param": "CHostParam",
+				"host-field": "CHostField", "script-func": "CScriptFunc", "script-closure": "CScriptClosure", "host-method": "CHostMethod", "host-method-value": "CHostMethodValue",
+				"script-method": "CScriptMethod", "script-method-value": "CScriptMethodValue"}[g.Callee]
+			region := c.region
+			late := c.impl == "second"
+			if c.impl == "other" {
+				region = ""
+				late = !g.yLate() // neither value: make the model disagree
+			}
+			byKind["stmt"] = append(byKind["stmt"], fmt.Sprintf("(%d%%N, %s, %s, %s, false)", c.ID, form, callee, coqBool(late)))
+			sm.ImplComparisons++
+			sm.RefComparisons++
+			sm.count("case:stmt")
+			if c.region != "" {
+				sm.count("region:" + c.region)
+			}
+			info := map[string]any{"kind": "stmt", "region": c.region, "form": g.Form, "callee": g.Callee, "arg": g.Arg}
+			sm.CaseIndex[fmt.Sprint(c.ID)] = info
+			if c.impl != "first" {
+				in := map[string]any{"script": c.input["script"], "received": c.input["received"], "failed": c.input["failed"], "at-statement": c.input["at-statement"], "assigned-after": c.input["assigned-after"]}
+				for k, v := range info {
+					in[k] = v
+				}
+				sm.RefMismatches = append(sm.RefMismatches, refMismatch{ID: c.ID, Region: region, Input: in, Impl: c.input["received"], Ref: c.input["at-statement"],
+					Note: "Go evaluates the arguments of a go/defer statement at the statement (child process, GOMAXPROCS(1))"})
+			}
+		}
+	}
+	for _, j := range jobs {
 		for _, m := range j.other {
 			next++
 			m.ID = next
@@ -232,8 +313,8 @@ func (h *c07h) finish(out string, jobs []*c07job) error {
 		}
 	}
 	hdr := "From Verif Require Import Lib.Str Boundary.Types Boundary.Marshal Boundary.Cases.\n"
-	per := map[string]int{"arg": 120, "res": 150, "var": 200, "meth": 400, "wrap": 2000, "disp": 2000, "sess": 2000}
-	for _, k := range []string{"arg", "res", "var", "meth", "wrap", "disp", "sess"} {
+	per := map[string]int{"arg": 120, "res": 150, "var": 200, "meth": 400, "wrap": 2000, "disp": 2000, "sess": 2000, "echo": 3000, "stmt": 3000}
+	for _, k := range []string{"arg", "res", "var", "meth", "wrap", "disp", "sess", "echo", "stmt"} {
 		cases := byKind[k]
 		for i, n := 0, 0; i < len(cases); i, n = i+per[k], n+1 {
 			e := i + per[k]
